@@ -34,6 +34,16 @@ def run(ctx):
         if c['raised'] is not None and c['raised'] not in ('ValueError', 'HashError'):
             viol.append({'signature': 'oracle:impure-unexpected-error', 'case': {k: c[k] for k in ('spec', 'final', 'where')},
                          'what': f'C13: case {i}: connecting {c["final"]} raised {c["raised"]}'})
+    # the outcome must not depend on how the same layers were put together (nested blocks attached later, layer objects reused)
+    n_forms = 0
+    for i, c in enumerate(cases):
+        for name, r in (c.get('forms') or {}).items():
+            n_forms += 1
+            if (r is None) != (c['raised'] is None):
+                viol.append({'signature': 'oracle:impure-outcome-depends-on-construction', 'case': {k: c[k] for k in ('spec', 'final', 'where', 'flag')},
+                             'observed': {'flat': c['raised'], name: r},
+                             'what': f'C13: case {i}: the flat chain spec + [{c["final"]["t"]}] ' + ('is rejected' if c['raised'] else 'builds')
+                                     + f' but the same layers combined as "{name}" ' + ('are rejected' if r else 'build')})
     shards = lib.write_shards(ctx['pid'], 'imp', ['Values', 'Edges', 'Impure', 'CheckLib'], 'imp_case', 'check_impure', lits, per=100)
     total, bad, errors = lib.run_shards(shards)
     for e in errors:
